@@ -156,3 +156,67 @@ func VerifC01Pipelined() {
 }
 
 func verifSameU16(a, b uint16) bool { return a == b }
+
+// verifEchoName answers with a TXT record naming the question it was given.
+type verifEchoName struct{}
+
+func (verifEchoName) ServeDNS(ctx context.Context, rw ResponseWriter, req *dns.Msg) error {
+	resp := (&dns.Msg{}).SetReply(req)
+	resp.Answer = append(resp.Answer, &dns.TXT{
+		Hdr: dns.RR_Header{Name: req.Question[0].Name, Rrtype: dns.TypeTXT, Class: dns.ClassINET, Ttl: 10},
+		Txt: []string{"for " + req.Question[0].Name},
+	})
+	return rw.WriteMsg(ctx, req, resp)
+}
+
+// VerifC01UDPBackToBack: plain-UDP queries of 2..3 clients arriving back to back,
+// before the workers serving the earlier ones have run, each get exactly one response
+// with their own ID and question, whatever the order in which the workers then run.
+//
+//verif:harness name=H01i-udp-back-to-back tier=quick,thorough bounds="2..3 datagrams (symbolic IDs, names of different lengths, different question types) accepted before any worker runs; workers run in every order; the buffer pool hands released buffers back" reach=done,three maxpaths=20000 switches=0
+//verif:assume worker pool = one thread per task; threads switch only when blocked or finished
+func VerifC01UDPBackToBack() {
+	verifPoolMode(1)
+	verifAsyncWorkers = true
+	defer func() { verifAsyncWorkers = false }()
+	s := verifNewDNS(verifEchoName{}, 64)
+	ctx := context.Background()
+	names := []string{"client-a.example.", "b.example.", "third-client.example.org."}
+	qts := []uint16{dns.TypeA, dns.TypeAAAA, dns.TypeTXT}
+	n := 2 + verifChoice(2)
+	var ids [3]uint16
+	var conns [3]*verifPacketConn
+	for i := 0; i < n; i++ {
+		q := &dns.Msg{}
+		q.SetQuestion(names[i], qts[i])
+		ids[i] = nondetU16()
+		q.Id = ids[i]
+		b, err := q.Pack()
+		verifAssume(err == nil)
+		conns[i] = &verifPacketConn{data: b}
+	}
+	for i := 0; i < n; i++ {
+		_ = s.acceptUDPMsg(ctx, conns[i])
+	}
+	verifRunAll()
+	for i := 0; i < n; i++ {
+		c := conns[i]
+		verifAssert("exactly-one-response-per-query", len(c.written) == 1)
+		if len(c.written) != 1 {
+			continue
+		}
+		r := &dns.Msg{}
+		verifAssert("response-decodable", r.Unpack(c.written[0]) == nil)
+		verifAssert("response-carries-the-request's-id-and-question", r.Id == ids[i] && len(r.Question) == 1 && r.Question[0].Name == names[i] && r.Question[0].Qtype == qts[i])
+		own := len(r.Answer) == 1
+		if own {
+			t, ok := r.Answer[0].(*dns.TXT)
+			own = ok && len(t.Txt) == 1 && t.Txt[0] == "for "+names[i]
+		}
+		verifAssert("response-answers-the-request's-own-question", own)
+	}
+	if n == 3 {
+		verifReach("three")
+	}
+	verifReach("done")
+}
